@@ -1,10 +1,33 @@
-(** C20 — Readiness wakes exactly the waiting coroutine, promptly. Statements only. *)
+(** C20 — Readiness wakes exactly the waiting coroutine, promptly. Statements only.
+    Histories: waits and timed-out waits for readability ([false]) or writability ([true]), read and
+    write readiness, deletion of both interests or of one, hooked close, reuse of the number. *)
 From OCV Require Import Base.Prelude Net.Selector Net.Token Net.TokenOracle Net.TokenProofs.
 Open Scope Z_scope.
 
 (** the token handed to the OS comes back unchanged, for every 64-bit coroutine id *)
 Theorem C20_roundtrip : forall t, 0 <= t < 2 ^ 64 -> decode (encode t) = t.
 Proof. exact roundtrip. Qed.
+
+(** every history (any length, any 64-bit ids, any descriptors, any order of waits for either
+    direction, time-outs, readiness of either direction, deletions, closes and reuses of descriptor
+    numbers) outside the two recorded findings ([no_defect]: a coroutine and a descriptor stay paired
+    until the descriptor's registration is deleted, readiness of one direction does not arrive while
+    a coroutine waits for the other, one direction is deleted alone only if it is the only one):
+    each readiness event resumes, on the event, exactly the coroutines waiting for that direction of
+    that descriptor, and a direction the OS delivers nothing for has no waiter *)
+Theorem C20_holds_outside : forall nfd ops,
+  wf_C20 nfd ops = true -> no_defect ops = true -> ok_C20 ops (run_C20 nfd ops) = true.
+Proof. exact holds_outside. Qed.
+
+(** after ANY history (ill-formed ones and the recorded findings included): the descriptor number
+    is closed through the runtime and handed out again; a coroutine (an identity not used before)
+    that waits for either direction of the new socket gets exactly its interest and its own token
+    registered with the OS, and the readiness event resumes it and nobody else *)
+Theorem C20_reuse_wakes : forall nfd ops fd d c,
+  0 <= c < 2 ^ 64 -> fresh c ops = true ->
+  exists b, run_C20 nfd (ops ++ [Close fd; Reopen fd; Wait d c fd; Ready d fd])
+            = run_C20 nfd ops ++ [OClose b; OReopen; OReg true (Some (negb d, d, c)); OEvent c true [c]].
+Proof. exact reuse_wakes. Qed.
 
 (** known finding: a registration (and its token) outlives the wait that made it *)
 Theorem C20_refuted_registration_outlives_wait :
@@ -31,7 +54,7 @@ Proof. exact refuted_one_token. Qed.
 (** what the oracle's readiness clause says: a coroutine waiting for that direction of the
     descriptor is resumed by the event ... *)
 Theorem C20_wake_hits : forall t d fd tok hit woken t' c,
-  ok_step t (Ready d fd) (OEvent tok hit woken) = (true, t') -> In c (waiters_on fd d t) -> In c woken.
+  ok_step t (Ready d fd) (OEvent tok hit woken) = (true, t') -> In (c, (fd, d)) t -> In c woken.
 Proof. exact wake_hits. Qed.
 
 (** ... and nobody else is: nobody waiting for another descriptor, nobody waiting for the other
@@ -39,17 +62,31 @@ Proof. exact wake_hits. Qed.
 Theorem C20_no_cross_wake : forall t d fd tok hit woken t' c,
   ok_step t (Ready d fd) (OEvent tok hit woken) = (true, t') -> In c woken ->
   exists f w, In (c, (f, w)) t /\ f = fd /\ w = d.
-Proof.
-  intros t d fd tok hit woken t' c H1 H2. apply waiters_on_spec. exact (no_cross_wake t d fd tok hit woken t' c H1 H2).
-Qed.
+Proof. exact no_cross_wake. Qed.
 
 (** when the OS delivers nothing for a direction of a descriptor, the oracle accepts only if nobody
     waits for it (such a waiter would be resumed by its wait timeout) *)
-Theorem C20_unregistered_direction_has_no_waiter : forall t d fd t',
-  ok_step t (Ready d fd) ONoEvent = (true, t') -> waiters_on fd d t = [].
-Proof. exact ready_clause_noevent. Qed.
+Theorem C20_unregistered_direction_has_no_waiter : forall t d fd t' c,
+  ok_step t (Ready d fd) ONoEvent = (true, t') -> ~ In (c, (fd, d)) t.
+Proof. exact no_event_no_waiter. Qed.
+
+Example C20_nonvacuous :
+  let a := 15128819530526934229 in let b := 440535360 in
+  let ops := [Wait true a 0; Wait false b 1; Ready true 0; WaitT false a 0; Ready false 1;
+              Close 0; Reopen 0; Wait true a 0; Ready true 0; Wait false a 0; Ready false 0;
+              DelDir false 1; DelDir true 1; Ready false 2] in
+  wf_C20 3 ops = true /\ no_defect ops = true
+  /\ run_C20 3 ops =
+     [OReg true (Some (false, true, a)); OReg true (Some (true, false, b)); OEvent a true [a];
+      ORegT true (Some (true, true, a)) true; OEvent b true [b];
+      OClose true; OReopen; OReg true (Some (false, true, a)); OEvent a true [a];
+      OReg true (Some (true, true, a)); OEvent a true [a];
+      ODel true None; ODel true None; ONoEvent].
+Proof. repeat split; vm_compute; reflexivity. Qed.
 
 Print Assumptions C20_roundtrip.
+Print Assumptions C20_holds_outside.
+Print Assumptions C20_reuse_wakes.
 Print Assumptions C20_refuted_registration_outlives_wait.
 Print Assumptions C20_refuted_registration_outlives_wait_cross.
 Print Assumptions C20_refuted_one_token_per_descriptor.
